@@ -441,6 +441,11 @@ func (w *vWorld) execCertPolicy(c map[string]interface{}) (map[string]interface{
 		if vStr(c, "world") == "groups" {
 			q.Path += "&addGroups=true"
 		}
+		if vStr(c, "world") == "plain-durquery" && vBool(dur, "given") {
+			// the duration travels in the query string like type and addGroups do
+			q.Path += "&duration=" + url.QueryEscape(vStr(dur, "text"))
+			form.Del("duration")
+		}
 		q.PubKey = keyText
 		q.BodyType = "multipart"
 		q.Form = form
